@@ -46,8 +46,14 @@ def handle (input impl : Json) : R Reply := do
   if kind == "round" then
     handleRound (← field input "round") impl
   else
-    let t ← decodeTrace (← field input "trace")
-    let si := spec t
+    let tj ← field input "trace"
+    let t ← decodeTrace tj
+    let restarts : List (Nat × Nat) ← match fieldD tj "restarts" .null with
+      | .obj kvs => kvs.foldlM (init := []) fun acc k v => do
+          let rs ← listOf asNat v
+          pure (acc ++ rs.map (fun r => (k.toNat!, r)))
+      | _ => pure []
+    let si := spec t restarts
     let nTrue := (t.queries.filter (fun q => !q.isAccept && q.transmit)).length
     let tags :=
       (if t.honest.length < t.n then ["byzantine-member"] else []) ++
@@ -56,7 +62,7 @@ def handle (input impl : Json) : R Reply := do
       (if t.rounds.any (fun r => r.obs.any (fun o => !o.valid)) then ["invalid-observation"] else []) ++
       (if t.reports.any (fun r => decide (r.upkeeps.length > 1)) then ["multi-upkeep-report"] else []) ++
       (if decide (nTrue > 0) then ["transmit-willing"] else [])
-    pure { agree := true, specModel := true, specImpl := si, fail := if si then "" else explain t,
+    pure { agree := true, specModel := true, specImpl := si, fail := if si then "" else explain t restarts,
            nontrivial := decide (t.reports.length ≥ 2 ∧ nTrue ≥ 2), tags := "net-trace" :: tags,
            key := s!"{t.n}-{t.f}-{t.rounds.length}-{t.reports.length}-{t.pipeline.length}-{t.queries.length}" }
 
